@@ -99,6 +99,20 @@ def r2(chk, prog):
                 if cnt in w:
                     reset = True
                     where.append(short)
+            # when the existing file is kept (openCheck() does not return false), the counter must have been set in
+            # openCheck() itself - from the state of that file: a restart continues a partly filled generation
+            oc = m.get('openCheck')
+            if oc is not None:
+                ocfg = oc.cfg
+                sets = [x for x in oc.walk() if x.get('k') == 'BinaryOperator' and x.get('op') == '=' and
+                        field_name(children(x)[0]) == cnt]
+                keeps = [r for r in oc.walk() if r.get('k') == 'ReturnStmt' and children(r) and not (
+                    strip_all_casts(children(r)[0]).get('k') == 'CXXBoolLiteralExpr' and
+                    not strip_all_casts(children(r)[0]).get('val'))]
+                ok = bool(keeps) and all(any(ocfg.node_dominates(a, r) for a in sets) for r in keeps)
+                chk.check(ok, 'R2', oc.name, 'when the existing file is kept, progress counter %s is set from its state '
+                          '(a restart continues a partly filled generation)' % cnt, oc.loc(),
+                          'a path returns "keep the file" without assigning the counter in openCheck()')
             chk.check(reset, 'R2', m['written'].name, 'progress counter %s restarts with every new generation' % cnt,
                       m['written'].loc(), 'the counter is updated in written() and tested in writeCheck() but never '
                       'assigned in openCheck()/rollFiles(): after the first roll-over writeCheck() fails for every '
